@@ -300,6 +300,31 @@ HonestSeekProof(rep, b, h, bytes, wl) ==
                                !.hash = IF h < 0 THEN None ELSE [@ EXCEPT !.nodes = sect]],
         seek |-> bs.seek]
 
+\* ---- seek combined with an upgrade, no block or hash (seek_from_head, then upgrade_proof) ----
+SeekTrusted0(root, bytes) == IF bytes = 0 THEN root ELSE SeekTrusted(root, bytes)
+\* walk the roots of the tree of length n, taking each root's bytes off; inside the first root that is
+\* big enough continue as in a trusted tree; beyond the end: the head
+RECURSIVE SeekRoots(_, _, _)
+SeekRoots(roots, bytes, head) ==
+  IF roots = <<>> THEN head
+  ELSE LET sz == TrueNode(Head(roots)).size IN
+       IF bytes = sz THEN Head(roots)
+       ELSE IF bytes > sz THEN SeekRoots(Tail(roots), bytes - sz, head)
+       ELSE SeekTrusted0(Head(roots), bytes)
+SeekFromHead(n, bytes) == SeekRoots(FullRoots(n), bytes, 2 * n)
+\* The upgrade section is what the verifier asks for (oracle mode); the node among them that contains
+\* the seek target is not sent: the seek section ends in it and the verifier computes it.
+HonestSeekUpProof(rep, bytes, wl) ==
+  LET base == HonestProof(rep, -1, -1, wl)
+      sr == SeekFromHead(wl, bytes)
+      asked == UpAsked(rep, wl)
+      tops == {j \in 1..Len(asked) : sr < 2 * wl /\ Contains(asked[j], sr)}
+      top == IF tops = {} THEN -1 ELSE asked[CHOOSE j \in tops : TRUE]
+      rest == SelectSeq(asked, LAMBDA x : x # top) IN
+  [seekroot |-> sr, top |-> top,
+   proof |-> [base EXCEPT !.up.nodes = [j \in 1..Len(rest) |-> TrueNode(rest[j])]],
+   seek |-> IF top < 0 THEN <<>> ELSE SeekSection(sr, top)]
+
 ---------------------------------------------------------------------------
 (* Soundness *)
 \* what an accepted proof commits is part of the writer's log
